@@ -433,6 +433,17 @@ impl LiveOverlay {
         }
     }
 
+    /// Check whether the overlay this one is based on, if any, matches the provided marker (the
+    /// marker of the last commit): a changeset prepared on top of an overlay can only be applied
+    /// to the store right after that overlay has been committed.
+    pub(super) fn parent_matches_marker(&self, marker: Option<&OverlayMarker>) -> bool {
+        match (self.parent.as_ref(), marker) {
+            (None, _) => true,
+            (Some(parent), Some(marker)) => parent.data.status.ptr_eq(&marker.0),
+            _ => false,
+        }
+    }
+
     /// Get the overlay's root. If this is an empty overlay, returns `None`.
     pub(super) fn parent_root(&self) -> Option<Node> {
         self.parent.as_ref().map(|p| p.root)
